@@ -3,10 +3,10 @@ from __future__ import annotations
 from fractions import Fraction
 import math
 import numpy as np
-import impl, gen, oracle, evalutil as E
+import scale, impl, gen, oracle, evalutil as E
 from common import close, same_value
 
-RULE = ("1-D/2-D/3-D label-map pairs built from objects (touching, diagonal, split, merged, shifted, border instances, "
+RULE = ("long-array corpus (oracle only): matched instances 25k-100k voxels apart along one axis; metric-selection variants (duplicated metrics, centre-line Dice first/middle/last, reorderings: every other value must be unchanged); 1-D/2-D/3-D label-map pairs built from objects (touching, diagonal, split, merged, shifted, border instances, "
         "up to 24 instances per side) x input type {SEMANTIC, UNMATCHED, MATCHED} x matching metric {IOU, DSC, ASSD} x "
         "thresholds (grid + exact hits) x optional decision metric/threshold x backends {default, cc3d, scipy}; every "
         "result compared (a) with an independent implementation of the documented definitions on the voxel sets whenever "
@@ -211,8 +211,74 @@ def run_cases(ctx, n, tag):
             one_case(ctx, p2, r2, POOL[i % len(POOL)], f"{tag}{i}.shared", shared=True)
 
 
+def selection_cases(ctx, n):
+    """what is reported for one metric must not depend on which other metrics were requested, in which order, or
+    how often a metric is named (3-D scenes so that centre-line Dice can be one of the others)"""
+    rng = ctx.rng
+    for i in range(n):
+        three_d = rng.random() < 0.6
+        pred, ref = gen.pair(rng, ndim=3 if three_d else rng.choice([1, 2]), hi=7, max_obj=4, allow_empty=False)
+        it = rng.choice(["MATCHED", "UNMATCHED", "SEMANTIC"])
+        base = rng.sample(["IOU", "DSC", "RVD", "ASSD"], rng.randint(2, 4))
+        dec = None
+        if rng.random() < 0.4:
+            dm = rng.choice([m for m in base if m != "RVD"] or ["IOU"])
+            if dm not in base:
+                base.append(dm)
+            dec = [dm, {"q": list(rng.choice(GRID[dm]))}]
+        cfg = E.mk_cfg(it, base, matcher=None if it == "MATCHED" else E.naive("IOU", rng.choice([(1, 10), (1, 2)])), decision=dec)
+        variants = E.selection_variants(rng, base, allow_cldsc=three_d)
+        inp = {"shape": list(pred.shape), "dtype": str(pred.dtype), "pred": gen.arr_json(pred), "ref": gen.arr_json(ref), "cfg": cfg,
+               "variants": variants, "src": f"selection{i}"}
+        inv, book, ran = E.selection_failures(cfg, pred, ref, variants)
+        ctx.case(inp, ran > 0)
+        ctx.count("metric_selection_variants", ran)
+        if inv or book:
+            ctx.violation("C01 violated: a reported value depends on the other requested metrics: " + (inv + book)[0], inp,
+                          impl=(inv + book)[:5], key={"kind": "metric-selection"})
+
+
+def scale_recipes():
+    """matched instances whose two parts / whose partner lie further apart than sqrt(2^31) or 2^16 voxels along one
+    axis; a 2-D strip"""
+    out = []
+    for n in (50021, 70001, 100003):
+        out.append({"kind": "runs", "shape": [n], "dtype": "uint8", "ref_runs": [[3, 9, 1], [30, 11, 2]],
+                    "pred_runs": [[5, 9, 1], [30, 11, 2], [n - 20, 6, 2]]})
+    out.append({"kind": "runs", "shape": [2, 66001], "dtype": "uint8", "ref_runs": [[1, 5, 7]], "pred_runs": [[66001 + 65990, 5, 7]]})
+    return out
+
+
+def scale_case(ctx, rec, src):
+    """oracle only: per-instance IoU / Dice / ASSD of a matched pair against exact integer arithmetic"""
+    pred, ref = scale.build(rec)
+    cfg = E.mk_cfg("MATCHED", ["IOU", "DSC", "ASSD"])
+    inp = {"recipe": rec, "cfg": cfg, "src": src}
+    ctx.case(inp, True)
+    ctx.count("scale_oracle_only")
+    res = E.run_impl(cfg, pred, ref)
+    if isinstance(res, str):
+        ctx.violation(f"evaluation raised {res} on a long array", inp, impl=res, key={"kind": "raises"})
+        return
+    s = res["ungrouped"]
+    labs = sorted((set(np.unique(pred).tolist()) & set(np.unique(ref).tolist())) - {0})
+    psize, rsize, inter = scale.contingency(pred, ref)
+    want = {"IOU": sorted(float(scale.pair_score("IOU", psize, rsize, inter, l, [l])) for l in labs),
+            "DSC": sorted(float(scale.pair_score("DSC", psize, rsize, inter, l, [l])) for l in labs),
+            "ASSD": sorted(scale.assd_exact(ref == l, pred == l) for l in labs)}
+    for m in ("IOU", "DSC", "ASSD"):
+        got = s["list_" + m]
+        if isinstance(got, str) or len(got) != len(want[m]) or any(not close(a, b) for a, b in zip(sorted(got), want[m])):
+            ctx.violation(f"C01 violated on a long array: per-TP {m} values: library={got} but definitions give {want[m]}", inp,
+                          impl=s, key={"kind": "definitions"})
+            return
+
+
 def run(ctx):
     corpus(ctx)
+    for k, rec in enumerate(scale_recipes()):
+        scale_case(ctx, rec, f"scale{k}")
+    selection_cases(ctx, ctx.scale(40, 400))
     exhaustive(ctx, (1, 3) if ctx.quick else (1, 4))
     run_cases(ctx, ctx.scale(700, 8000), "rand")
 
@@ -222,6 +288,19 @@ def search(ctx):
 
 
 def replay(ctx, rec):
+    if "recipe" in rec["input"]:
+        scale_case(ctx, rec["input"]["recipe"], "replay")
+        return
+    if "variants" in rec["input"]:
+        i = rec["input"]
+        pred = np.array(i["pred"], dtype=np.dtype(i["dtype"])).reshape(i["shape"])
+        ref = np.array(i["ref"], dtype=np.dtype(i["dtype"])).reshape(i["shape"])
+        inv, book, ran = E.selection_failures(i["cfg"], pred, ref, i["variants"])
+        ctx.case(i, True)
+        if inv or book:
+            ctx.violation("C01 violated: a reported value depends on the other requested metrics: " + (inv + book)[0], i,
+                          impl=(inv + book)[:5], key={"kind": "metric-selection"})
+        return
     i = rec["input"]
     dt = np.dtype(i.get("dtype", "uint8"))
     one_case(ctx, np.array(i["pred"], dtype=dt).reshape(i["shape"]), np.array(i["ref"], dtype=dt).reshape(i["shape"]), i["cfg"], "replay")
